@@ -16,12 +16,12 @@ contract github.com/mitchellh/hashstructure/v2.Hash
 
 // "the hash ignores external labels": at the moment the digest is taken the external labels of the configuration are empty
 on call "github.com/mitchellh/hashstructure/v2.Hash"(v, format, opts) in ConfigManager.ReloadFromRaw
-   assert[C16,C08] @external_labels_do_not_enter_the_hash len(info.Config.GlobalConfig.ExternalLabels) == 0
+   assert[C16] @external_labels_do_not_enter_the_hash len(info.Config.GlobalConfig.ExternalLabels) == 0
    do gHashed = info.Config
 
 // ... nor the marshalled text that is hashed with it (relabel regular expressions are only visible there)
 on call "gopkg.in/yaml.v2.Marshal"(in) in ConfigManager.ReloadFromRaw
-   assert[C16,C08] @external_labels_do_not_enter_the_hashed_text len(info.Config.GlobalConfig.ExternalLabels) == 0
+   assert[C16] @external_labels_do_not_enter_the_hashed_text len(info.Config.GlobalConfig.ExternalLabels) == 0
 
 contract github.com/prometheus/prometheus/config.Load
   ensures result1 == nil ==> result0 != nil && fresh(result0)
@@ -31,7 +31,7 @@ contract github.com/prometheus/prometheus/config.Load
 // external labels put back; a failed load / digest leaves the published configuration as it was
 contract ConfigManager.ReloadFromRaw
   requires c != nil && c.currentConfig != nil
-  ensures[C16,C08] @published_hash_is_of_the_published_config c.currentConfig != old(c.currentConfig) ==>
+  ensures[C16] @published_hash_is_of_the_published_config c.currentConfig != old(c.currentConfig) ==>
         (c.currentConfig.Config == gHashed && c.currentConfig.ConfigHash == sprint(gLastHash) && c.currentConfig.ExtraConfig == old(c.currentConfig.ExtraConfig))
   ensures[C16] @failed_reload_keeps_the_published_config (err != nil && c.currentConfig == old(c.currentConfig)) ==> c.currentConfig.ConfigHash == old(c.currentConfig.ConfigHash)
   modifies ConfigManager.currentConfig at {c}, ConfigInfo.* at {}, github.com/prometheus/prometheus/config.Config.* at {}, gLastHash, gHashed
